@@ -222,6 +222,7 @@ func seqRun(w *World, coll bool) {
 						}
 					}
 					o.CreatedCB = t.Flag(1, 3)
+					o.CBMark = (o.GenID || o.CreatedCB) && t.Flag(1, 2)
 				}
 			} else {
 				o.AllowMiss = t.Flag(1, 3)
